@@ -107,7 +107,7 @@ def format_paths(t, dump, prog, mode, sym=True):
     def fmt(c):
         M = make_machine(c)
         snap = Snapshot(prog, dump).load()
-        asm, info = decorate(M, snap, sym_lines='all' if sym else False, text=t.text)
+        asm, info = decorate(M, snap, sym_lines='all' if sym else False, text=t.text, sym_cols=(sym and mode == 'c10'))
         if sym:
             asm += comment_relation_constraints(info, toktypes, consts)
         holder['info'] = info
@@ -261,6 +261,25 @@ def c10_text(t, dump, tier):
             outs.append(out)
     if not outs:
         return res, stats
+    # canonical re-layout: the same tokens one blank apart (line structure of the first path's model) are lexed again by the real
+    # lexer - character offsets, columns and the blanks inside multi-token rules all change - and must format to the same text
+    try:
+        mdl0 = model_of(first[1])
+        if mdl0 is not None and info is not None:
+            R = layout_text(t.text, info, mdl0)
+            dR = symgo.native_dump([R])[0]
+            same_tokens = (not dR.get('syntax_errors') and not dR.get('panic')
+                           and [x[1] for x in token_seq(dR, prog_consts(prog))] == [x[1] for x in token_seq(dump, prog_consts(prog))])
+            if same_tokens:
+                pR, _ = format_paths(bfamily.T(t.tag, R), dR, prog, 'c10r', sym=False)
+                for (kind, val), pc in pR:
+                    stats['paths'] += 1
+                    if kind == 'ok' and val[1] is None and val[0] != first[0]:
+                        res.append(BFinding('C10', 'format', t.tag, 'layout-dependent:relexed', 'the same tokens written one blank apart format differently',
+                                            {'text': t.text, 'relayout': R, 'a': first[0][:300], 'b': val[0][:300]}))
+                        break
+    except Unsupported as u:
+        stats['inconclusive'].append('re-layout: %s' % str(u)[:150])
     # idempotence inside ONE process: format(x) and then format(format(x)) in the same machine (package-level state survives
     # between the two calls, as it does in an editor host that uses the exported library function)
     try:
@@ -333,6 +352,13 @@ def layout_text(text, info, model):
             cur = ln
         elif out:
             out.append(' ')
+        if i in (info.get('cols') or {}):
+            # realise the model's column when the text so far allows it
+            col = model.eval(info['cols'][i][0], model_completion=True).as_long()
+            sofar = ''.join(out)
+            here = len(sofar) - (sofar.rfind('\n') + 1)
+            if here <= col < 4096:
+                out.append(' ' * (col - here))
         out.append(s)
     return ''.join(out) + '\n'
 
